@@ -180,6 +180,13 @@ def run_children(binary, args_for_range, n_items, scratch, procs=None, per_item_
                         cur = None
                     else:
                         tail.append(line)
+            if cur is not None:
+                try:
+                    lg = open(os.path.join(c['dir'], 'logs', 'verif.log'), errors='replace').read()
+                    fatal = [l for l in lg.splitlines() if 'level=fatal' in l or 'level=panic' in l]
+                    tail.append('\n'.join(fatal[-3:])[-4000:])
+                except OSError:
+                    pass
             shutil.rmtree(c['dir'], ignore_errors=True)
             if cur is not None:
                 # the child ended while item cur was running
